@@ -104,7 +104,7 @@ contract(M + 'match_selectors', params=dict(self=CSSMATCH, el=NODE, selectors=SE
          loops={1: dict(var='selector',
                         invariant=['match == (_i1 > 0 and is_not)', 'is_not == selectors.is_not', 'is_html == selectors.is_html',
                                    'wf_from(selectors, _i1)',
-                                   f'any_from({CTX}, el, selectors, _i1) == any_from({CTX}, el, selectors, 0)'])},
+                                   f'any_from({CTX}, el, selectors.selectors, _i1) == any_from({CTX}, el, selectors.selectors, 0)'])},
          unfold=3, properties=['C01', 'C04', 'C05', 'C11'])
 contract(M + 'match', params=dict(self=CSSMATCH, el=NODE), returns=BOOL, requires=['ir_wf_list(self.selectors)'] + WF,
          ensures=[f'result == matches({CTX}, el)'], properties=['C03'])
